@@ -4,6 +4,7 @@ package main
 
 import (
 	"fmt"
+	"regexp"
 	"go/ast"
 	"go/constant"
 	"go/token"
@@ -513,6 +514,9 @@ func (sc *SpecScope) call(x *ast.CallExpr) Val {
 		return vBool(c.valEq(a, b))
 	case "int":
 		return sc.eval(arg(0))
+	case "dig9":
+		c.useDig9()
+		return vInt(sx("dig9", sc.intOf(arg(0)), sc.intOf(arg(1))))
 	case "b2i":
 		return vInt(sIte(sc.boolOf(arg(0)), "1", "0"))
 	case "heapframe":
@@ -628,6 +632,7 @@ func (c *FnCtx) useSpecFunc(sf *SpecFunc) (sym, retSort string) {
 		return
 	}
 	c.declared[sym] = true
+	defer c.emitAxiomsFor(sf.Name)
 	var params []string
 	var sorts []string
 	sc := &SpecScope{c: c, vars: map[string]Val{}, pure: true}
@@ -659,6 +664,27 @@ func (c *FnCtx) useSpecFunc(sf *SpecFunc) (sym, retSort string) {
 		return
 	}
 	body := sc.eval(sf.Body)
+	if sf.Opaque && len(params) > 0 {
+		c.declared[sym] = false
+		c.declare(sym, sorts, retSort)
+		var names []string
+		for _, p := range params {
+			names = append(names, strings.Fields(strings.Trim(p, "()"))[0])
+		}
+		app := sx(sym, names...)
+		revealed := c.spec != nil && c.spec.IsLemma
+		if c.spec != nil {
+			for _, r := range c.spec.Reveal {
+				if r == sf.Name {
+					revealed = true
+				}
+			}
+		}
+		if revealed {
+			c.emit(fmt.Sprintf("(assert (forall (%s) (! (= %s %s) :pattern (%s))))", strings.Join(params, " "), app, body.S, app))
+		}
+		return
+	}
 	if len(params) == 0 {
 		c.emit(fmt.Sprintf("(define-fun %s () %s %s)", sym, retSort, body.S))
 	} else {
@@ -907,4 +933,21 @@ func offsetOf(body, bv string) string {
 		rest = rest[i+len(bv):]
 	}
 	return off
+}
+
+// emitAxiomsFor emits (once) every axiom that mentions the named spec function.
+func (c *FnCtx) emitAxiomsFor(name string) {
+	for _, ax := range c.eng.contracts.Axioms {
+		if c.axiomsDone[ax.Name] {
+			continue
+		}
+		if !regexp.MustCompile(`\b` + name + `\(`).MatchString(ax.Src) {
+			continue
+		}
+		c.axiomsDone[ax.Name] = true
+		sc := &SpecScope{c: c, cur: c.entry, vars: map[string]Val{}, pure: true}
+		t := sc.boolOf(ax.Expr)
+		c.emit(sx("assert", t))
+		c.trusted["specification axiom "+ax.Name+": "+oneLine(ax.Src)] = true
+	}
 }
